@@ -23,7 +23,7 @@ def run_sync(ctx, keys_for_pid):
             if line.startswith('<<"TB"'):
                 fh.write(line + "\n")
     tf = ctx.path("sync_trace.ndjson"); of = ctx.path("c19.json")
-    nh, no = ("150", "160") if ctx.tier == "quick" else ("1500", "2500")
+    nh, no = ("150", "160") if ctx.tier == "quick" else ("1500", "1000")   # every networked node costs 2 descriptors until the process exits (limit 20000)
     p = ctx.run([binp, table, tf, of, nh, no], timeout=3000)
     if not os.path.exists(of):
         raise Inconclusive("c19 harness failed (rc=%d): %s" % (p.returncode, p.stderr[-1500:]))
